@@ -30,6 +30,7 @@ package bufioutil
 //@ ghost field BufioWriter.out map[int]byte
 //@ ghost field BufioWriter.n int
 //@ func BufioWriter.Write
+//@   norefine
 //@   modifies self.out, self.n
 //@   ensures result0 >= 0 && result0 <= len(p)
 //@   ensures result1 == nil ==> (result0 == len(p) && self.n == old(self.n) + len(p) && all(q, (q >= old(self.n) && q < old(self.n) + len(p)) ==> self.out[q] == p[q - old(self.n)]) && all(i, (i >= 0 && i < old(self.n)) ==> self.out[i] == old(self.out)[i]))
@@ -64,4 +65,28 @@ package bufioutil
 //@   requires br.r != nil
 //@   modifies *
 //@   ensures[a_half_written_tail_entry_ends_the_journal] result ==> (br.err != io.ErrUnexpectedEOF && br.err != io.EOF)
+//@ end
+
+//@ # ---- the stream writer behind the table builder (C15 "the value returned for a key is byte-for-byte what was added"; C01):
+//@ # the file is written through ONE buffered writer; its byte stream (ghost: out[0..n), what bufio.Writer has accepted, in
+//@ # order) is what reaches the file when it is flushed. Every byte handed to Write is appended to that stream in the order
+//@ # given - nothing goes to the file behind the buffer's back (bytes still buffered would land after it) - and Size
+//@ # counts exactly what the stream accepted. This is the implementation side of the BufioWriter.Write interface contract.
+//@ ghost field bufio.Writer.out map[int]byte
+//@ ghost field bufio.Writer.n int
+//@ extern func bufio.Writer.Write
+//@   note assumed (documented behaviour of bufio.Writer): a successful Write accepts exactly the given bytes, in order, behind what it accepted before; nn < len(p) comes with an error
+//@   modifies self.out, self.n
+//@   ensures result0 >= 0 && result0 <= len(p)
+//@   ensures result0 != len(p) ==> result1 != nil
+//@   ensures result1 == nil ==> (self.n == old(self.n) + len(p) && all(q, (q >= old(self.n) && q < old(self.n) + len(p)) ==> self.out[q] == p[q - old(self.n)]) && all(i, (i >= 0 && i < old(self.n)) ==> self.out[i] == old(self.out)[i]))
+//@ end
+//@ func bufioStreamWriter.Write
+//@   prop C01 C15
+//@   arith math
+//@   requires sw.w != nil && sw.w.n >= 0 && sw.w.n <= 1099511627776 && sw.size >= 0 && sw.size <= 1099511627776 && len(content) <= 1099511627776
+//@   modifies sw.bufioEntryWriter.size, sw.bufioEntryWriter.w.out, sw.bufioEntryWriter.w.n
+//@   ensures[every_byte_goes_through_the_buffered_writer_in_the_order_given] result1 == nil ==> (result0 == len(content) && sw.w.n == old(sw.w.n) + len(content) && all(q, (q >= old(sw.w.n) && q < old(sw.w.n) + len(content)) ==> sw.w.out[q] == content[q - old(sw.w.n)]) && all(i, (i >= 0 && i < old(sw.w.n)) ==> sw.w.out[i] == old(sw.w.out)[i]))
+//@   ensures[size_counts_what_the_stream_accepted] result1 == nil ==> sw.size == old(sw.size) + int64(len(content))
+//@   ensures[a_refused_write_is_reported_as_nothing_written] result1 != nil ==> (result0 == 0 && sw.size == old(sw.size))
 //@ end
